@@ -403,12 +403,61 @@ theorem modify_passive (s : RState) (hq : QWf s) (id : Nat) (np nv : Option Nat)
 end Ref
 end Bourse
 
+
+
+namespace Bourse
+namespace Ref
+
+theorem create_orders (s : RState) (sd : Side) (vol tr : Nat) (p : Option Nat) :
+    (create s sd vol tr p).1.orders = s.orders ∨
+    (create s sd vol tr p).1.orders = s.orders ++ [Book.mkOrder s.t sd vol tr p s.orders.length] := by
+  unfold create
+  cases p with
+  | none => exact Or.inr rfl
+  | some q => simp only; split
+              · exact Or.inl rfl
+              · exact Or.inr rfl
+
+/-- `create_and_place_order`: the passive order of every appended record was resting before the call. -/
+theorem cap_passive (s : RState) (hq : QWf s) (sd : Side) (vol tr : Nat) (p : Option Nat) :
+    ∃ new, (step s (.cap sd vol tr p)).1.trades = s.trades ++ new ∧
+      ∀ x ∈ new, ∃ o, s.orders[x.passive]? = some o ∧ o.status = .active := by
+  simp only [step]
+  split
+  · rename_i s' id' heq
+    have h1 : (create s sd vol tr p).1 = s' := by rw [heq]
+    have hq' : QWf s' := by rw [← h1]; exact qwf_create s hq sd vol tr p
+    have ht : s'.trades = s.trades := by rw [← h1]; exact create_trades s sd vol tr p
+    obtain ⟨new, e1, e2⟩ := place_passive s' hq' id'
+    refine ⟨new, by rw [e1, ht], ?_⟩
+    intro x hx
+    obtain ⟨o, ho, hact⟩ := e2 x hx
+    rcases create_orders s sd vol tr p with hsame | happ
+    · rw [← h1, hsame] at ho; exact ⟨o, ho, hact⟩
+    · rw [← h1, happ] at ho
+      rcases Nat.lt_or_ge x.passive s.orders.length with hlt | hge
+      · rw [List.getElem?_append_left hlt] at ho; exact ⟨o, ho, hact⟩
+      · rw [List.getElem?_append_right hge] at ho
+        cases hk : x.passive - s.orders.length with
+        | zero =>
+          rw [hk] at ho
+          simp only [List.getElem?_cons_zero, Option.some.injEq] at ho
+          rw [← ho] at hact
+          simp [Book.mkOrder] at hact
+        | succ k => rw [hk] at ho; simp at ho
+  · rename_i r hne
+    exact ⟨[], by simp [create_trades], by simp⟩
+
+end Ref
+end Bourse
+
 namespace Bourse
 
 /-- Implementation model, every state satisfying the invariant: the passive order of every record
-appended by placing an existing order or by a modification was resting (Active) before the operation. -/
+appended by a placement (of an existing order, or create-and-place) or by a modification was resting (Active) before the operation. -/
 theorem book_passive_was_resting {b : Book} (h : Inv b) (op : Op) (hv : ValidOp op) (hnf : (b.step op).1.faulted = false)
-    (hop : (∃ i, op = .place i) ∨ (∃ i, op = .ev (.new i)) ∨ (∃ i p v, op = .modify i p v) ∨ (∃ i p v, op = .ev (.modify i p v))) :
+    (hop : (∃ i, op = .place i) ∨ (∃ i, op = .ev (.new i)) ∨ (∃ i p v, op = .modify i p v) ∨ (∃ i p v, op = .ev (.modify i p v)) ∨
+      (∃ sd vol tr p, op = .cap sd vol tr p)) :
     ∃ new, (b.step op).1.trades = b.trades ++ new ∧
       ∀ tr ∈ new, ∃ e, b.orders[tr.passive]? = some e ∧ e.order.status = .active := by
   have hs := step_refines h op hv hnf
@@ -417,11 +466,12 @@ theorem book_passive_was_resting {b : Book} (h : Inv b) (op : Op) (hv : ValidOp 
   have hq := qwf_abs h
   have key : ∃ new, (Ref.step (abs b) op).1.trades = (abs b).trades ++ new ∧
       ∀ tr ∈ new, ∃ o, (abs b).orders[tr.passive]? = some o ∧ o.status = .active := by
-    rcases hop with ⟨i, rfl⟩ | ⟨i, rfl⟩ | ⟨i, p, v, rfl⟩ | ⟨i, p, v, rfl⟩
+    rcases hop with ⟨i, rfl⟩ | ⟨i, rfl⟩ | ⟨i, p, v, rfl⟩ | ⟨i, p, v, rfl⟩ | ⟨sd, vol, tr, p, rfl⟩
     · exact Ref.place_passive (abs b) hq i
     · exact Ref.place_passive (abs b) hq i
     · exact Ref.modify_passive (abs b) hq i p v
     · exact Ref.modify_passive (abs b) hq i p v
+    · exact Ref.cap_passive (abs b) hq sd vol tr p
   obtain ⟨new, h1, h2⟩ := key
   refine ⟨new, by rw [ht, h1]; rfl, ?_⟩
   intro tr htr
